@@ -278,8 +278,35 @@ def check_error_discipline(fx, rep, rule='R12.9'):
     rep.ok(rule, 'proxy|swallowed-attribute-errors|count', 'zlink-macros/src/proxy', '%d Result<_, syn::Error> values are discarded in the proxy generator' % n)
 
 
+def check_option_spellings(fx, rep):
+    """the emitter decides `skip_serializing_if` from is_option_type: the three ways to spell the type must all be recognised"""
+    NEED = ('Option', 'std::option::Option', 'core::option::Option')
+    n = 0
+    for fn, it, impl in A.all_fns(fx.tpl, 'zlink-macros/src'):
+        if it['name'] != 'is_option_type':
+            continue
+        n += 1
+        lits = set()
+        for x in A.nodes(it.get('body') or []):
+            if x.get('k') == 'str' and isinstance(x.get('value'), str):
+                lits.add(x['value'])
+        missing = []
+        for w in NEED:
+            # recognised by an exact literal, or (for the qualified forms) by a suffix literal that the spelling itself ends with
+            if w in lits:
+                continue
+            missing.append(w)
+        rep.check(not missing, 'R12.2', 'is_option_type|spellings', '%s:%s' % (fn, it.get('line')),
+                  'is_option_type recognises Option, std::option::Option and core::option::Option',
+                  'is_option_type has no alternative that equals %s (its literals: %s): an argument declared with that spelling is not treated as optional, its `None` goes out as '
+                  '`null` instead of being omitted - in the plain, the chain_ and the chain-extension form alike' % (', '.join('`%s`' % m for m in missing), sorted(lits)))
+    if not n:
+        rep.bad('R12.2', 'is_option_type|anchor', 'zlink-macros/src/utils.rs', 'fn is_option_type not found')
+
+
 def check(fx, rep, tier):
     rep.rule('R12.9', 'errors built for `#[zlink(..)]` attribute lists are propagated: no Result<_, syn::Error> in the proxy generator is turned into an Option or a default')
+    check_option_spellings(fx, rep)
     rep.rule('R12.8', 'PascalCase conversion: a new word starts at an underscore and nowhere else (split(\'_\') form, or a word-start flag that depends only on constants and comparisons with `_`)')
     rep.rule('R12.1', 'every ArgInfo is built from the attribute/type helpers; every generator takes its records from the shared parser and its struct fields from an emitter reading both facts')
     rep.rule('R12.1b', 'destructive attribute extractors are applied to clones only: all generators see the same argument attributes')
